@@ -148,8 +148,8 @@ def correspond(ctx, name, cases, ops, coq_case, coq_header, chk, judge=None, con
     for i in range(0, len(flat), per):
         chunk = flat[i:i + per]
         index_maps.append([ti for ti, _ in chunk])
-        files.append(coq_header + "\nDefinition cases := [\n" + ";\n".join(t for _, t in chunk) + "\n].\n"
-                     "Eval vm_compute in (bad_indices %s cases).\n" % chk)
+        # the list is elaborated against the checker's argument type (so a shard whose cases only contain empty lists still types)
+        files.append(coq_header + "\nEval vm_compute in (bad_indices %s [\n" % chk + ";\n".join(t for _, t in chunk) + "\n]).\n")
     outs = run_cases_sharded("%s_%s" % (ctx.pid, name), files)
     stats["coq_files"] = len(files)
     stats["coq_terms"] = len(flat)
